@@ -74,6 +74,9 @@ static const char* kCurated[] = {
     "a: x !y@0=1; b: a",
     "a: x; b: a !y; c: b y",
     "a: x !y %collapse; b: a",
+    // the same key requested (order-only / single-use) and reported as discovered: only the discovered entry invalidates
+    "a: y/M x !y; b: a",
+    "a: y/S x !y; b: a",
     // order-only and single-use edges
     "a: x; b: a/M y",
     "a: x; b: a/S y",
@@ -569,10 +572,10 @@ static void exploreWorld(const std::string& spec, const std::string& modeName, v
     // of the space (without a database C05 covers the same-engine case).
     bool withCancel = m.useDB && m.keyset == 0 && !m.syncDefault;
     if (!T) {
-      // quick tier: only the first 13 curated worlds carry a cancelled build (all of them in thorough)
+      // quick tier: only the first 15 curated worlds carry a cancelled build (all of them in thorough)
       int idx = -1;
       for (int i = 0; i < (int)(sizeof(kCurated) / sizeof(kCurated[0])); ++i) if (spec == kCurated[i]) idx = i;
-      if (idx < 0 || idx >= 13) withCancel = false;
+      if (idx < 0 || idx >= 15) withCancel = false;
     }
     if (m.depth) ex.bfs(m.depth + (T ? 1 : 0), 0, 0, false);
     else {
